@@ -36,13 +36,16 @@ def run(ck, prog):
         "range handed to expect_values and the type-annotation requirement equal a reference table from the "
         "TableGen Programmer's Reference; (R13.4) every can_be_casted_to result guards a diagnostic, and "
         "check_template_args is called from every class-reference site; (R13.5) IndexCtx::error records "
-        "unconditionally under the current file.")
+        "unconditionally under the current file; (R13.6) at every can_be_casted_to site whose operands have a "
+        "determinable role (type of an indexed value / declared type: a symbol's `typ`, an indexed ast::Type, a "
+        "constant type) the receiver is not a declared type and the target is not a value's type.")
     ck.trusted = ["reference arity table in tdq/ref.py (rows marked unsure are informational)"]
     for r, t in (("R13.1", "syntax errors come from every workspace file, paired with that file"),
                  ("R13.2", "failed lookups are reported"),
                  ("R13.3", "operator arity / annotation table equals the reference"),
                  ("R13.4", "type checks are wired to diagnostics; template-argument check at every class reference"),
-                 ("R13.5", "IndexCtx::error always records, under the current file")):
+                 ("R13.5", "IndexCtx::error always records, under the current file"),
+                 ("R13.6", "cast checks run from the value's type to the declared type")):
         ck.rule(r, t)
     r131(ck, prog)
     r132(ck, prog)
@@ -321,6 +324,39 @@ def r134(ck, prog):
                   "can_be_casted_to decides whether a diagnostic is emitted",
                   msg="%s: the result of a can_be_casted_to check no longer controls a diagnostic [%s]" % (b.path, b.where(i)))
     ck.floor("R13.4", "can_be_casted_to call sites", n, 30)
+    # direction of the check: `value_type.can_be_casted_to(declared_type)`. The relation is symmetric on scalars but not on
+    # records (a subclass value fits a base-class slot, not the reverse) nor below list<..>: a reversed call accepts
+    # ill-typed programs and rejects well-typed ones.
+    def role(o):
+        if o[0] == "call":
+            m = re.search(r"^<syntax::ast::(\w+) as ide::index::Indexable>::index$", str(o[1]))
+            if m:
+                return "declared" if m.group(1) == "Type" else "value"
+            if len(o) > 3 and o[3] and str(o[3][-1]) == "typ":
+                return "declared"
+        if o[0] == "const" and "typ::Type::" in str(o[1]):
+            return "declared"
+        return None
+    nd = 0
+    per = {}
+    for b, i, t in prog.call_sites(lambda c: c == CAST):
+        if b.crate != "ide.rlib" or b.path == CAST:
+            continue
+        per[b.path] = per.get(b.path, 0) + 1
+        rr = {role(o) for o in prov.origins(b, t["args"][0])} - {None}
+        ar = {role(o) for o in prov.origins(b, t["args"][2])} - {None}
+        if not rr and not ar:
+            continue
+        nd += 1
+        ok = "declared" not in rr and "value" not in ar
+        ck.ob("R13.6", "direction:%s#%d" % (b.path, per[b.path]), ok,
+              "receiver %s, argument %s" % (sorted(rr) or ["(undetermined)"], sorted(ar) or ["(undetermined)"]),
+              msg="%s: can_be_casted_to is called on %s with %s as target [%s] — the check runs in the direction "
+                  "declared -> value: a base-class value is accepted where a subclass is required and a subclass value is "
+                  "rejected where its base class is declared" % (
+                      b.path, "a declared type" if "declared" in rr else "a type of undetermined role",
+                      "a value's type" if "value" in ar else "a type of undetermined role", b.where(i)))
+    ck.floor("R13.6", "can_be_casted_to sites with a determinable role", nd, 40)
     # every class-reference site reaches check_template_args (directly or through helpers of the indexer)
     from ..callgraph import callgraph
     cg = callgraph(prog)
